@@ -719,6 +719,7 @@ func c14Batch(c *sim.RunCtx) {
 type simConn struct {
 	bs  bytestream.ByteStreamServer
 	cas remoteexecution.ContentAddressableStorageServer
+	ac  remoteexecution.ActionCacheServer
 	s   *rt.Sched
 	c   *sim.RunCtx
 	// compressors announced by GetCapabilities (the client negotiates zstd from it)
@@ -750,6 +751,10 @@ func (n *simConn) Invoke(ctx context.Context, method string, args, reply any, op
 		out, err = n.cas.BatchUpdateBlobs(ctx, in.(*remoteexecution.BatchUpdateBlobsRequest))
 	case "/build.bazel.remote.execution.v2.ContentAddressableStorage/BatchReadBlobs":
 		out, err = n.cas.BatchReadBlobs(ctx, in.(*remoteexecution.BatchReadBlobsRequest))
+	case "/build.bazel.remote.execution.v2.ActionCache/GetActionResult":
+		out, err = n.ac.GetActionResult(ctx, in.(*remoteexecution.GetActionResultRequest))
+	case "/build.bazel.remote.execution.v2.ActionCache/UpdateActionResult":
+		out, err = n.ac.UpdateActionResult(ctx, in.(*remoteexecution.UpdateActionResultRequest))
 	case "/build.bazel.remote.execution.v2.Capabilities/GetCapabilities":
 		out = &remoteexecution.ServerCapabilities{CacheCapabilities: &remoteexecution.CacheCapabilities{
 			DigestFunctions: AllDigestFunctions, SupportedCompressors: n.compressors}}
@@ -1022,6 +1027,104 @@ func c14BackToBack(c *sim.RunCtx) {
 	c.Nontrivial = true
 }
 
+// (e) Action Cache back to back: the repository's AC client over the simulated
+// connection to its AC server must behave like the backend, for every digest
+// function and instance name: what was stored under a digest is what a read
+// of that digest returns, nothing else becomes visible.
+func c14ACBackToBack(c *sim.RunCtx) {
+	t := c.T.Plan
+	type aobj struct {
+		D  digest.Digest
+		AR *remoteexecution.ActionResult
+	}
+	var objs []aobj
+	for i, n := 0, 2+t.Choose(4); i < n; i++ {
+		fn := AllDigestFunctions[t.Choose(len(AllDigestFunctions))]
+		inst := []string{"inst", "", "a/b"}[t.Choose(3)]
+		action := []byte{byte(i), 0xAC, byte(t.Choose(4))}
+		objs = append(objs, aobj{RefDigest(inst, fn, action), &remoteexecution.ActionResult{ExitCode: int32(100 + i), StdoutRaw: []byte{byte(i), 1, 2}}})
+	}
+	var ops [][2]int
+	for i, n := 0, 4+t.Choose(10); i < n; i++ {
+		ops = append(ops, [2]int{t.Pick(3, 5), t.Choose(len(objs))})
+	}
+	failRate := []int{0, 0, 100}[t.Choose(3)]
+	desc := fmt.Sprintf("ac-back-to-back objs=%d ops=%v failRate=%d", len(objs), ops, failRate)
+	c.Sample["case"] = desc
+	c.Note("case %s", desc)
+	c.Sim(sim.SimOpts{MaxSteps: 100000, DeadlockClass: "deadlock"}, func(s *rt.Sched) {
+		backend := newModelStore(c, "backend", digest.KeyWithInstance)
+		backend.ProtoAC = true
+		injected := 0
+		ft := c.T.Fault
+		backend.Fault = func(op string, ds []digest.Digest) error {
+			if failRate > 0 && ft.Chance(failRate, 1000) {
+				injected++
+				return status.Error(codes.Unavailable, "backend: injected failure")
+			}
+			return nil
+		}
+		conn := &simConn{ac: grpcservers.NewActionCacheServer(backend, 1<<20), s: s, c: c}
+		ba := grpcclients.NewACBlobAccess(conn, 1<<20)
+		ctx := context.Background()
+		stored := map[string]int{} // backend key -> object index the model says it holds
+		for _, o := range ops {
+			if c.Failed() {
+				return
+			}
+			ob := objs[o[1]]
+			inj0 := injected
+			switch o[0] {
+			case 0:
+				err := ba.Put(ctx, ob.D, buffer.NewProtoBufferFromProto(ob.AR, buffer.UserProvided))
+				c.Logf("Put(a%d %s) -> %v", o[1], ob.D, err)
+				if err != nil {
+					if injected == inj0 {
+						c.Fail("spurious-error", "AC Put(%s) failed with %v without any backend failure [%s]", ob.D, err, desc)
+					}
+					continue
+				}
+				if !backend.Has(ob.D) {
+					c.Fail("put-ok-but-not-stored", "AC Put(%s) succeeded but the backend does not hold an entry under that digest (it holds %d entries) [%s]", ob.D, len(backend.Objs), desc)
+					return
+				}
+				stored[backend.key(ob.D)] = o[1]
+				c.Count("probe_ac_b2b_put", 1)
+			default:
+				m, err := ba.Get(ctx, ob.D).ToProto(&remoteexecution.ActionResult{}, 1<<20)
+				c.Logf("Get(a%d %s) -> %v", o[1], ob.D, err)
+				_, has := stored[backend.key(ob.D)]
+				if err != nil {
+					if status.Code(err) == codes.NotFound && !has {
+						continue
+					}
+					if injected == inj0 {
+						c.Fail("spurious-error", "AC Get(%s) failed with %v although the backend holds it: %v [%s]", ob.D, err, has, desc)
+					}
+					continue
+				}
+				if !has {
+					c.Fail("get-of-absent-object", "AC Get(%s) returned a result although nothing was stored under that digest [%s]", ob.D, desc)
+					return
+				}
+				if !proto.Equal(m, objs[stored[backend.key(ob.D)]].AR) {
+					c.Fail("wrong-bytes", "AC Get(%s) returned another ActionResult than the one stored under that digest [%s]", ob.D, desc)
+					return
+				}
+				c.Count("probe_ac_b2b_get_ok", 1)
+			}
+		}
+		// nothing but the stored keys became visible in the backend
+		for k := range backend.Objs {
+			if _, ok := stored[k]; !ok {
+				c.Fail("stored-under-other-digest", "the backend holds an entry under %s, which no successful Put named [%s]", k, desc)
+				return
+			}
+		}
+	})
+	c.Nontrivial = true
+}
+
 func c14WriteRandom(c *sim.RunCtx) {
 	cs := drawC14Write(c.T.Plan)
 	c.Sample["case"] = cs.Desc
@@ -1037,6 +1140,7 @@ func init() {
 			{Name: "read-offsets", Weight: 3, Fn: c14Read},
 			{Name: "batch-and-ac", Weight: 3, Fn: c14Batch},
 			{Name: "back-to-back", Weight: 3, Fn: c14BackToBack},
+			{Name: "ac-back-to-back", Weight: 1, Fn: c14ACBackToBack},
 		},
 		Components: map[string][]string{
 			"real": {"pkg/blobstore/grpcservers: ByteStream, ContentAddressableStorage, ActionCache servers", "pkg/blobstore/grpcclients.casBlobAccess (identity and negotiated zstd compression)", "pkg/digest resource-name codecs", "pkg/zstd (pool, read closer) with klauspost/compress in synchronous mode", "pkg/blobstore/buffer"},
